@@ -32,7 +32,9 @@ LEVEL_TEXT = ("Kernel-checked theorems over ALL finite annotation graphs (no bou
               "within the explicit bound Graph.fuelBound, under the decidable hypothesis Graph.wf: every cycle of the member "
               "relation passes through a named non-stdlib type, members of stdlib types are stdlib, unwrap idempotent; "
               "loop_diverges + loopG_not_wf: the hypothesis is necessary), edges_acyclic (the edges handed to graphlib have no "
-              "cycle, so CycleError is impossible), and for ANY topological order o of the produced edges (IsTopoOrder, "
+              "cycle, so CycleError is impossible; stdClosed_needed: a cycle at the shape of the isstdlibtype defects repaired by "
+              "612940b / f6f9920), alias_root_same_graph (NewType / value-alias root vs the type it stands for: same add calls up "
+              "to the root label), leaf_root_single (string-valued alias: one node), and for ANY topological order o of the produced edges (IsTopoOrder, "
               "graphlib's contract; checkTopo_sound: the certificate evaluated on every sequence the model reports is sound): "
               "order_nodup, root_last, members_precede, ref_iff_flagged_named / ref_flagged (a node is a forward reference iff "
               "flagged cyclic and its type is named and non-stdlib), flagged_revisit (every flagged node revisits a type that "
@@ -239,7 +241,7 @@ def build_jobs(ctx):
     topo += [(3, adj) for adj in all_dags(3)]
     dags4 = [(4, adj) for adj in all_dags(4)]
     if quick:
-        topo += rng.sample(three, min(len(three), ctx.n(330, 512)))
+        topo += rng.sample(three, min(len(three), ctx.n(280, 512)))
         topo += rng.sample(dags4, min(len(dags4), ctx.n(16, 64)))
         for _ in range(ctx.n(10, 0)):
             topo.append((4, {p for p in pairs4 if rng.random() < 0.25}))
@@ -269,7 +271,7 @@ def build_jobs(ctx):
         jobs.append({"prog": prog, "roots": roots_for(prog, rng, not quick or k < 3), "family": "topology",
                      "meta": {"k": k, "edges": len(adj), "cyclic": is_cyclic(k, adj), "style": style,
                               "edge_kinds": sorted(set(kinds_used))}})
-    for n in range(ctx.n(330, 1500)):
+    for n in range(ctx.n(280, 1500)):
         g = universe.Gen(rng, universe.Cfg(any_ok=True, classes=(0, 3), enums=(0, 1)))
         prog = g.program(f"u{n}")
         roots = [{"ty": g.ty(3), "kind": "annotation"} for _ in range(4)]
